@@ -95,6 +95,14 @@ var scenarios = []scenario{
 		indi("I1", "Alice /Archer/", "3 Mar 1801", "9 Sep 1870"),
 		indi("J1", "Alice /Archer/", "13 Mar 1802", "9 Sep 1870") + indi("J2", "Alice /Archer/", "3 Mar 1802", "9 Sep 1870"),
 		"two candidates for one left individual whose scores differ only in the third decimal (0.9432 and 0.9444): no tie, the result must not depend on the order of arrival", 0, 0},
+	{"S16",
+		alice("I1", "1 FAMS @F1@") + boris("I2", "1 FAMS @F2@") + clara("I3", "1 FAMC @F1@", "1 FAMC @F2@") + "0 @F1@ FAM\n1 WIFE @I1@\n1 CHIL @I3@\n0 @F2@ FAM\n1 HUSB @I2@\n1 CHIL @I3@\n1 CHIL @N1@\n0 @N1@ NOTE not a person\n",
+		alice("J1", "1 FAMS @G1@") + boris("J2", "1 FAMS @G2@") + clara("J3", "1 FAMC @G1@", "1 FAMC @G2@") + "0 @G1@ FAM\n1 WIFE @J1@\n1 CHIL @J3@\n0 @G2@ FAM\n1 HUSB @J2@\n1 CHIL @J3@\n1 CHIL @M1@\n0 @M1@ NOTE not a person\n",
+		"incomplete and odd families: one without a husband, one without a wife (the 'nobody there' branches of the cached Husband()/Wife()), and a CHIL line that points to a NOTE record", 0, 0},
+	{"S17",
+		alice("I1", uidA) + indi("I2", "Alicia /Archer/", "5 Mar 1803", "11 Sep 1872", uidA) + boris("I3"),
+		alice("J1", uidA) + indi("J2", "Alicia /Archer/", "5 Mar 1803", "11 Sep 1874") + indi("J3", "Boris /Bellamy/", "17 Jul 1805", "1 Jan 1885"),
+		"a tie next to ordinary candidates: two left individuals carry the _UID of right J1; the loser's namesake J2 (no identifier) and an unrelated pair are decided by score (the scores differ: no other tie). Which of the two gets J1 may depend on the schedule, the rest may not", 0, 0},
 	{"S13",
 		indi("X0", "Zed /Quux/", "1 Jan 1700", "") + indi("P1", "Alice /Archer/", "3 Mar 1801", "", uidA) + indi("P2", "Boris /Bellamy/", "17 Jul 1805", ""),
 		indi("P1", "Alice /Archer/", "3 Mar 1802", "", uidA) + indi("P2", "Boris /Bellamy/", "17 Jul 1806", ""),
@@ -243,6 +251,30 @@ type facts struct {
 	tieFree       bool
 	ref           observation
 	whyNotTieFree string
+	// tied[i][j]: the pair is a member of a tie (a certain pair competing with another certain pair of its kind
+	// for one individual, a pair with an individual whose pointer occurs twice in its list, a candidate whose
+	// score ties with another candidate's)
+	tied [][]bool
+}
+
+// tieKey: how an observation resolves the ties - which of the tied pairs it holds.
+func (f *facts) tieKey(o observation) string {
+	var sb strings.Builder
+	for _, t := range o.Triples {
+		if t.L >= 0 && t.R >= 0 && f.tied[t.L][t.R] {
+			fmt.Fprintf(&sb, "%d-%d ", t.L, t.R)
+		}
+	}
+	return sb.String()
+}
+
+// computeFactsSafely: the similarity calls and the sequential reference run are calls into the code under test;
+// a panic there is a finding, not a harness failure.
+func computeFactsSafely(c config) (f facts, panicked string) {
+	if p, msg, _ := vlib.Try(func() { f = computeFacts(c) }); p {
+		return f, msg
+	}
+	return f, ""
 }
 
 func computeFacts(c config) facts {
@@ -331,6 +363,55 @@ func computeFacts(c config) facts {
 			f.tieFree, f.whyNotTieFree = false, "two candidate pairs tie on score"
 		}
 	}
+	// the members of the ties
+	f.tied = make([][]bool, f.nL)
+	for i := range f.tied {
+		f.tied[i] = make([]bool, f.nR)
+	}
+	lUID, lPtr := make([]int, f.nL), make([]int, f.nL)
+	for i := 0; i < f.nL; i++ {
+		for j := 0; j < f.nR; j++ {
+			if f.uid[i][j] {
+				lUID[i]++
+			}
+			if byPtr(i, j) {
+				lPtr[i]++
+			}
+		}
+	}
+	dup := func(list gedcom.IndividualNodes) []bool {
+		n := map[string]int{}
+		for _, x := range list {
+			n[x.Pointer()]++
+		}
+		out := make([]bool, len(list))
+		for i, x := range list {
+			out[i] = n[x.Pointer()] > 1
+		}
+		return out
+	}
+	dupL, dupR := dup(L), dup(R)
+	for i := 0; i < f.nL; i++ {
+		for j := 0; j < f.nR; j++ {
+			switch {
+			case f.uid[i][j] && (lUID[i] > 1 || rUID[j] > 1):
+				f.tied[i][j] = true
+			case byPtr(i, j) && (lPtr[i] > 1 || rPtr[j] > 1):
+				f.tied[i][j] = true
+			case dupL[i] || dupR[j]:
+				f.tied[i][j] = true
+			}
+			if !certain(i, j) && f.unforcedWS[i][j] >= opt.MinimumWeightedSimilarity {
+				for i2 := 0; i2 < f.nL; i2++ {
+					for j2 := 0; j2 < f.nR; j2++ {
+						if (i2 != i || j2 != j) && !certain(i2, j2) && math.Abs(f.unforcedWS[i2][j2]-f.unforcedWS[i][j]) < 1e-9 {
+							f.tied[i][j] = true
+						}
+					}
+				}
+			}
+		}
+	}
 	// reference execution: one job, no scheduler
 	rc := c
 	rc.Jobs = 1
@@ -399,6 +480,11 @@ func judge(c config, f *facts, out *vsched.Outcome, obs observation, returned bo
 	if f.tieFree && obs.key() != f.ref.key() {
 		add("differs-from-sequential-result", fmt.Sprintf("tie-free input but matching %s differs from the sequential %s", obs.key(), f.ref.key()))
 	}
+	// With ties the result may depend on which of the tied pairs wins, and on nothing else: an execution that
+	// resolves every tie the way the sequential run does must give the sequential result.
+	if !f.tieFree && obs.key() != f.ref.key() && f.tieKey(obs) == f.tieKey(f.ref) {
+		add("differs-from-sequential-result:same-tie-resolution", fmt.Sprintf("the ties (%s) are resolved as in the sequential run (tied pairs held: %q) but matching %s differs from the sequential %s", f.whyNotTieFree, f.tieKey(obs), obs.key(), f.ref.key()))
+	}
 	return
 }
 
@@ -436,7 +522,7 @@ func configs(tier string) []config {
 		// the scenarios with three individuals a side have about twice the scheduling points of the others
 		// (every cached accessor takes its object's mutex): their main configuration gets one deviation
 		// less in the quick tier
-		big := s.Name == "S7" || s.Name == "S8" || s.Name == "S10" || s.Name == "S11"
+		big := s.Name == "S7" || s.Name == "S8" || s.Name == "S10" || s.Name == "S11" || s.Name == "S16"
 		b := d
 		if big && tier != "thorough" {
 			b = d - 1
@@ -518,7 +604,12 @@ func run(tier, unit string, r *vlib.Rec) {
 	shard, _ := strconv.Atoi(p[2])
 	nsh, _ := strconv.Atoi(p[3])
 	c := configs(tier)[ci]
-	f := computeFacts(c)
+	f, fp := computeFactsSafely(c)
+	if fp != "" {
+		r.Eval()
+		r.Fail("panic:sequential:"+vlib.MsgClass(fp), fmt.Sprintf("%s [%s]: scoring the pairs one by one / the sequential Compare panicked: %s", c.Scenario, scen(c.Scenario).What, fp), kase{Config: c})
+		return
+	}
 	// replay determinism: the default schedule twice
 	a, oa, _ := execute(c, nil)
 	b, ob, _ := execute(c, nil)
@@ -595,7 +686,10 @@ func replay(cs json.RawMessage) (string, string) {
 	if k.CLI != nil {
 		return judgeCLI(*k.CLI)
 	}
-	f := computeFacts(k.Config)
+	f, fp := computeFactsSafely(k.Config)
+	if fp != "" {
+		return "panic:sequential:" + vlib.MsgClass(fp), fp
+	}
 	out, obs, ret := execute(k.Config, k.Devs)
 	var sigs []string
 	obsText := fmt.Sprintf("config %+v\nschedule deviations %v\npoints=%d threads=%d returned=%v matching=%s order=%s\n", k.Config, k.Devs, len(out.Points), out.Threads, ret, obs.key(), obs.Order)
@@ -640,7 +734,7 @@ func main() {
 	vlib.Main(&vlib.Check{
 		ID:    "C11",
 		Level: "model_checking",
-		Rule: "executions of the real, instrumented IndividualNodes.Compare under the vsched cooperative scheduler: for every scenario (18 tiny colliding input pairs, two of them with lists that are only a part of their documents) x configuration (Jobs, thresholds, channel capacity 1, sync.Map range order, base scheduler) every schedule with at most d deviations from the default scheduler (delay bounding; d per configuration) is run to completion and judged: termination, valid one-to-one matching, justified pairs, equality with the sequential result when tie-free, vector-clock data-race monitor. " +
+		Rule: "executions of the real, instrumented IndividualNodes.Compare under the vsched cooperative scheduler: for every scenario (20 tiny colliding input pairs, two of them with lists that are only a part of their documents) x configuration (Jobs, thresholds, channel capacity 1, sync.Map range order, base scheduler) every schedule with at most d deviations from the default scheduler (delay bounding; d per configuration) is run to completion and judged: termination, valid one-to-one matching, justified pairs, equality with the sequential result when tie-free (with ties: whenever the ties are resolved as in the sequential run), vector-clock data-race monitor. " +
 			"states = distinct global operation traces (hash of the sequence of scheduled operations); distinct_nontrivial counts the same.",
 		Assumptions: []string{
 			"scheduling points sit at the hooked synchronisation operations (go, channel send/receive/close/select, sync.Mutex/WaitGroup/Map, time.Sleep as a yield); for race-free code this covers every behaviour of the Go memory model within the deviation bound; data races are reported by the happens-before monitor instead of being explored",
